@@ -23,3 +23,26 @@ Theorem C11_hub_close_report_other_skis :
     j <> k -> get (fst (hstep C h (LClosed k c completed))) j = get h j.
 Proof. intros C h k c j completed. exact (hstep_other C h (LClosed k c completed) k j eq_refl). Qed.
 Print Assumptions C11_hub_close_report_other_skis.
+
+(* the end of a connection against its own registration (RegRace.v): with the closed-check
+   and the registry store of registerCheckedConnection in one critical section, every sequence
+   of registrations and end reports of a connection - any order, any number - that contains an
+   end report leaves it unregistered ... *)
+From Ship Require Import RegRace.
+From ShipGen Require Import HubTable.
+Theorem C11_hub_ended_connection_is_not_registered :
+  forall l : list ract,
+    atomic_only l = true -> has_end l = true -> r_reg (rrun l) = false.
+Proof. exact atomic_registration_forgets. Qed.
+Print Assumptions C11_hub_ended_connection_is_not_registered.
+
+(* ... which is what the source does (regenerated on every run) ... *)
+Theorem C11_hub_registration_is_one_critical_section : hub_register_atomic = true.
+Proof. reflexivity. Qed.
+Print Assumptions C11_hub_registration_is_one_critical_section.
+
+(* ... and what a check and a store in two steps would not: check - end - store *)
+Theorem C11_hub_split_registration_refuted :
+  r_reg (rrun [ACheck; AEnd; AStore]) = true /\ r_closed (rrun [ACheck; AEnd; AStore]) = true.
+Proof. exact split_registration_refuted. Qed.
+Print Assumptions C11_hub_split_registration_refuted.
